@@ -59,6 +59,18 @@ CHECKS.update({
         'note': 'trusted: TxMonitor entitlement rules (harness/bus_mon.h); collision model = wired AND of the two address bytes',
         'technique': 'online entitlement automaton over the interleaved bus log of hostile traffic scenarios on the real stack, ASan/UBSan',
     },
+    'C04': {
+        'level': 'fault_enumeration',
+        'text': 'Threaded execution of the real handler (bus thread on the virtual bus + client threads using addRequest(wait), sendAndWait, '
+                'self-deleting and restarting requests). Deterministic mode: one injected fault at EVERY I/O call index of a scenario in turn '
+                '(poll hang-up, read error/0, write error/short, echo corruption) plus device-invalid/reopen and signal-loss windows, with an '
+                'exactly-once shadow table at the client boundary and a virtual-time progress bound. Stress mode: free running threads under '
+                'ASan+UBSan and ThreadSanitizer (reports classified by whether they touch the request hand-over).',
+        'design_ref': 'DESIGN.md section 2, C04',
+        'note': 'trusted: shadow table in harness/c04_driver.cpp; schedules are sampled (real threads), the bus side is one thread; unbounded '
+                'eventually replaced by a virtual-time bound; TSan only sees intercepted synchronisation',
+        'technique': 'fault injection at every I/O call index + exactly-once shadow monitor + ASan/TSan stress of the real threaded stack',
+    },
     'C05': {
         'text': 'The real DataField::read runs on every raw pattern of every 1-/2-byte type (exhaustive), all days of 2000-2099, all day '
                 'counts, boundary and random wide patterns, for several divisors and text/JSON output; an independent exact-arithmetic '
